@@ -30,6 +30,7 @@ import (
 )
 
 const c11ShowIgnoredKey = "exit:show-ignored:ignored-problem-in-fail-set-makes-exit-nonzero"
+const c11ShowIgnoredMsg = "with -show-ignored, a problem that is ignored by a //lint:ignore directive still counts as an error and makes the run exit 1 when its check is in the -fail set, even if it is the only problem (lintcmd/cmd.go printDiagnostics: the severityIgnored test is skipped under -show-ignored); the statement lets only non-ignored problems decide the exit status. Minimal input: `//lint:ignore S1002 reason` above `if b == false {`, run `staticcheck -show-ignored .` -> exit 1, without -show-ignored -> exit 0"
 
 type c11Env struct {
 	res      *vx.Result
@@ -39,6 +40,8 @@ type c11Env struct {
 	defBits  c11Bits            // documented default set
 	scratch  string
 	stop     atomic.Bool // set once enough violations were collected
+	capped   atomic.Bool // some part collected its maximum of violations
+	deadline time.Time   // part A stops here so that part B keeps its share of the budget
 	vioCount atomic.Int64
 }
 
@@ -85,6 +88,10 @@ func c11Setup(res *vx.Result) *c11Env {
 	return env
 }
 
+func (env *c11Env) pastDeadline() bool {
+	return !env.deadline.IsZero() && time.Now().After(env.deadline)
+}
+
 func (env *c11Env) prepare(lists ...[]string) {
 	for _, l := range lists {
 		for _, s := range l {
@@ -99,6 +106,7 @@ func (env *c11Env) violate(key, msg string, c any) {
 	if env.res.Violate(key, msg, c) {
 		if env.vioCount.Add(1) >= c11MaxViolationsPerPart {
 			env.stop.Store(true)
+			env.capped.Store(true)
 		}
 	}
 }
@@ -423,6 +431,7 @@ func (env *c11Env) runPartA() {
 	type item struct{ ri, di int }
 	items := make(chan item, 1024)
 	var wg sync.WaitGroup
+	var expired atomic.Bool
 	workers := make([]*c11Worker, nw)
 	for i := 0; i < nw; i++ {
 		w := env.newWorker(i)
@@ -436,7 +445,8 @@ func (env *c11Env) runPartA() {
 		go func() {
 			defer wg.Done()
 			for it := range items {
-				if env.stop.Load() || res.Expired() {
+				if env.stop.Load() || res.Expired() || env.pastDeadline() {
+					expired.Store(true)
 					continue
 				}
 				r, d := sp.levelChoices[it.ri], sp.levelChoices[it.di]
@@ -465,7 +475,7 @@ func (env *c11Env) runPartA() {
 	}
 	close(items)
 	wg.Wait()
-	if res.Expired() {
+	if expired.Load() && !env.stop.Load() {
 		res.NotExhaustive("part A: time budget reached")
 	}
 	if env.stop.Load() {
@@ -581,7 +591,7 @@ func (env *c11Env) exitOne(c c11CaseExit) (violated bool) {
 	}
 	if (rc != 0) != (want != 0) {
 		if c.Ignored && c.ShowIgnored {
-			env.violate(c11ShowIgnoredKey, fmt.Sprintf("with -show-ignored a problem that is ignored by a //lint:ignore directive still makes the run exit %d when its check is in the -fail set (e.g. -fail=%s, only problem: ignored %s); the statement counts non-ignored problems only", rc, c.Fail, c.Check), c)
+			env.violate(c11ShowIgnoredKey, c11ShowIgnoredMsg, c)
 		} else {
 			env.violate(fmt.Sprintf("exit:fail=%s;check=%s;ignored=%v;show-ignored=%v", c.Fail, c.Check, c.Ignored, c.ShowIgnored),
 				fmt.Sprintf("exit status %d, reference %d, for a single problem of %s (ignored=%v) with -fail=%s -show-ignored=%v", rc, want, c.Check, c.Ignored, c.Fail, c.ShowIgnored), c)
